@@ -142,17 +142,11 @@ def checkCase (strict : List String) (c : Case) : CaseResult := Id.run do
           --  [cp-disp-mid] strictly inside a straight segment of route(): nudging moved a neighbouring
           --                segment past the checkpoint (buildOrthogonalNudgingSegments limits exist to
           --                prevent exactly this) -- strict;
-          --  [cp-disp-unify] mid-segment loss when another connector of the case has no checkpoint
-          --                and the unifying pre-pass is on (seen on the unchanged tree, see report)
           let sr := simplify r
           let lost := cps.filter (fun cp => !onRoute dr cp)
           let places := lost.map (cpPlace sr)
           let msg' := msg ++ s!" (lost: {lost.map showP} sitting {places})"
-          if places.any (· == "mid") then
-            let someWithout := routes.any (fun (j, _) => (lookup cpss j).isNone)
-            let unifying := (opts / 4) % 2 == 1
-            if someWithout && unifying then s := gated s "cp-disp-unify" msg'
-            else s := fail s ("[cp-disp-mid] " ++ msg')
+          if places.any (· == "mid") then s := fail s ("[cp-disp-mid] " ++ msg')
           else s := gated s "cp-disp" msg'
     | none => pure ()
   -- pairs
